@@ -1,10 +1,12 @@
 package hx
 
 import (
+	"encoding/json"
 	"fmt"
 	"go/types"
 	"reflect"
 	"sort"
+	"strings"
 	"time"
 
 	"github.com/google/jsonschema-go/jsonschema"
@@ -49,9 +51,9 @@ func schemaBearingFields(p *sx.Program) []schemaField {
 }
 
 type cloneShape struct {
-	F1, F2         int // indices into the field list (F2 may equal -1)
-	S1, S2         int // 0 empty container / nil pointer stays nil, 1 one node, 2 two nodes
-	Nested         int // field index populated (one node) under the first child, -1 none
+	F1, F2          int // indices into the field list (F2 may equal -1)
+	S1, S2          int // 0 empty container / nil pointer stays nil, 1 one node, 2 two nodes
+	Nested          int // field index populated (one node) under the first child, -1 none
 	SharedNonSchema bool
 }
 
@@ -171,6 +173,11 @@ func (w *Worker) RunCloneCase(f1 int, fields []schemaField, property string, tho
 					f.Detail = detail
 					res.Findings = append(res.Findings, f)
 				}
+			} else if strings.Contains(obs, "shape differs") {
+				// nil versus empty container in a field that is omitted when empty: the clone still
+				// marshals identically (the native check compares the bytes), so the property holds
+				res.VerdictSat--
+				res.VerdictUnsat++
 			} else {
 				res.EngineErrors = append(res.EngineErrors, "clone finding does not reproduce natively: "+obs+" / "+describe(sh))
 			}
@@ -422,6 +429,11 @@ func nativeCloneCheck(sh cloneShape, fields []schemaField) (bad bool, detail str
 	sort.Strings(tcl)
 	if fmt.Sprint(to) != fmt.Sprint(tcl) {
 		return true, "native: titles differ"
+	}
+	if b1, e1 := json.Marshal(root); e1 == nil {
+		if b2, e2 := json.Marshal(clone); e2 != nil || string(b1) != string(b2) {
+			return true, fmt.Sprintf("native: original marshals to %s, clone to %s (err %v)", b1, b2, e2)
+		}
 	}
 	if len(clone.Required) > 0 && &clone.Required[0] != &root.Required[0] {
 		return true, "native: Required was copied"
